@@ -174,7 +174,11 @@ def run_tlc(workdir, spec, cfg, workers=4, timeout=600, mode=None, extra=None, h
     ("simulate", num, depth)."""
     r = TlcResult()
     meta = tempfile.mkdtemp(prefix="md-", dir=workdir)
-    java = ["java", "-XX:+UseParallelGC", "-Xmx%dg" % heap_gb]
+    # TLC unpacks its standard modules into java.io.tmpdir on every run and never removes them:
+    # keep that inside the scratch directory, which is deleted with the run.
+    jtmp = os.path.join(meta, "jtmp")
+    os.makedirs(jtmp, exist_ok=True)
+    java = ["java", "-XX:+UseParallelGC", "-Xmx%dg" % heap_gb, "-Djava.io.tmpdir=" + jtmp]
     if xss:
         java.append("-Xss" + xss)
     if deque:
@@ -285,7 +289,9 @@ def _parse_tlc_output(r):
 
 
 def sany(workdir, spec, timeout=120):
-    p = subprocess.run(["java", "-cp", TLA_CP, "tla2sany.SANY", spec], cwd=workdir,
+    jtmp = os.path.join(workdir, ".jtmp")
+    os.makedirs(jtmp, exist_ok=True)
+    p = subprocess.run(["java", "-Djava.io.tmpdir=" + jtmp, "-cp", TLA_CP, "tla2sany.SANY", spec], cwd=workdir,
                        stdout=subprocess.PIPE, stderr=subprocess.STDOUT, text=True, timeout=timeout)
     bad = p.returncode != 0 or "*** Errors" in p.stdout or "Fatal errors" in p.stdout or "Could not parse" in p.stdout
     return (not bad), p.stdout
